@@ -764,12 +764,19 @@ class QueryObjectDescriptor(CanBehaveLikeAVariable[T], ABC):
                 if not isinstance(selected_variable, Variable) or selected_variable._is_inferred_:
                     # e.g. a flattened expression that is selected next to the inferred variable
                     continue
-                supplied_domain = selected_variable._domain_source_ and not selected_variable._domain_is_the_registry_
-                if supplied_domain and not any(selected_variable is var for var in concluded_on):
-                    # selected next to the inferred variable, it keeps ranging over its domain
+                if self._keeps_ranging_over_its_domain_(selected_variable, concluded_on):
                     continue
                 selected_variable._is_inferred_ = True
                 self._variables_inferred_for_this_evaluation_.append(selected_variable)
+
+    @staticmethod
+    def _keeps_ranging_over_its_domain_(selected_variable: Variable, concluded_on: Iterable[Variable] = ()) -> bool:
+        """
+        :return: True for a variable with a supplied domain that no conclusion is drawn on: selected next to the inferred
+         variable, it keeps ranging over its domain.
+        """
+        supplied_domain = selected_variable._domain_source_ and not selected_variable._domain_is_the_registry_
+        return bool(supplied_domain) and not any(selected_variable is var for var in concluded_on)
 
     def _reset_only_my_cache_(self) -> None:
         super()._reset_only_my_cache_()
@@ -854,7 +861,13 @@ class Infer(An[T]):
     def _evaluate__(self, sources: Optional[Dict[int, HashedValue]] = None, yield_when_false: bool = False) -> Iterable[T]:
         # the selected variables take their values from what is inferred while THIS query is evaluated: other queries
         # over the same variables range over their instances as before.
-        marked = [v for v in self._child_.selected_variables if isinstance(v, Variable) and not v._is_inferred_]
+        # (a variable with a supplied domain that is selected next to the inferred one keeps ranging over its domain, as
+        # it does for a rule written with an(...))
+        condition = self._child_._child_
+        concluded_on = [conclusion.var._var_ for conclusion in
+                        [*condition._conclusion_, *condition._conclusions_of_all_descendants_]] if condition else []
+        marked = [v for v in self._child_.selected_variables if isinstance(v, Variable) and not v._is_inferred_
+                  and not self._child_._keeps_ranging_over_its_domain_(v, concluded_on)]
         for v in marked:
             v._is_inferred_ = True
         try:
